@@ -822,6 +822,8 @@ static string viewsTA(const TA& a, const string& tag, bool withTe = true)
 	return os.str();
 }
 
+static string timbukOf(const TAT& t);
+static size_t numAfter(const string& s, char c);
 // tah <step> ... ; after every step every live entry is dumped; views of the touched entry
 static string opTaHist(const vector<string>& steps)
 {
@@ -852,6 +854,23 @@ static string opTaHist(const vector<string>& steps)
 		else if (op == "finals") { std::set<StateType> qs; for (const string& q : split(f.at(2), ',')) qs.insert(toN(q)); ent(1).SetStatesFinal(qs); touched = ix(1); }
 		else if (op == "erasefinal") { ent(1).EraseFinalStates(); touched = ix(1); }
 		else if (op == "clear") { ent(1).Clear(); touched = ix(1); }
+		else if (op == "loadinto") {
+			// LoadFromString into an EXISTING automaton (which may share its rule table): the loaded states get numbers from a
+			// fresh dictionary, the symbols from the automaton's alphabet – both translations are printed for the driver
+			TAT t = parseTA(f.at(2));
+			Parsing::TimbukParser parser;
+			AutBase::StateDict d;
+			TA& a = ent(1);
+			a.LoadFromString(parser, timbukOf(t), d);
+			out << " ld" << k << "=";
+			{ bool first = true; for (auto& p : d) { if (!first) out << ","; out << numAfter(p.first, 'q') << ">" << p.second; first = false; } if (first) out << "-"; }
+			std::map<size_t, size_t> rank;
+			for (const RuleT& r : t.rules) rank[r.sym] = r.kids.size();
+			auto transl = a.GetAlphabet()->GetSymbolTransl();
+			out << " sy" << k << "=";
+			{ bool first = true; for (auto& p : rank) { if (!first) out << ","; out << p.first << ">" << (*transl)(TA::StringRank("s" + std::to_string(p.first), p.second)); first = false; } if (first) out << "-"; }
+			touched = ix(1);
+		}
 		else if (op == "unreach") { pool.emplace_back(new TA(ent(1).RemoveUnreachableStates())); touched = pool.size() - 1; }
 		else if (op == "useless") { pool.emplace_back(new TA(ent(1).RemoveUselessStates())); touched = pool.size() - 1; }
 		else if (op == "cand") { pool.emplace_back(new TA(ent(1).GetCandidateTree())); touched = pool.size() - 1; }
@@ -1807,6 +1826,16 @@ int main(int argc, char** argv)
 	std::ios::sync_with_stdio(true);
 	// the NFA alphabet is process-wide: number a0..a7 before any case can register other symbol names (kinds are mixed)
 	initFaAlphabet();
+	// so is the default alphabet of the explicit tree automata: register s0..s7 with the ranks of the generators' alphabet so
+	// that a text loaded into an automaton built from raw symbol numbers uses the same numbers (s<k> = k)
+	{
+		static const size_t ranks[8] = {0, 0, 0, 1, 2, 2, 3, 1};
+		TA tmp;
+		auto transl = tmp.GetAlphabet()->GetSymbolTransl();
+		for (size_t i = 0; i < 8; ++i) {
+			if ((*transl)(TA::StringRank("s" + std::to_string(i), ranks[i])) != i) { std::cerr << "tree alphabet numbering" << std::endl; return 3; }
+		}
+	}
 	string line;
 	while (std::getline(std::cin, line)) {
 		if (line.empty() || line[0] == '#') continue;
